@@ -24,7 +24,7 @@ import (
 )
 
 const (
-	validatorRe = `^(validate|validate2|check|check2|check3|check4|Validate)$`
+	validatorRe = `^(validate|validate2|check|check2|check3|check4|Validate|norm)$`
 	sanitizerRe = `^sanitize$`
 	f5Key       = "F5:validator-condition-not-on-every-path"
 )
@@ -100,7 +100,14 @@ type caseInfo struct {
 	sites     map[int]bool
 	nontriv   bool
 	dropped   int // real edges dropped by a validator condition
-	unjust    int // of those, not justified by must-pass
+	unjust    int // of those, F5-shaped: a genuine validator condition that is not on every path
+	unexpl    int // of those, not explained by the model at all (no condition of the edge is a validator check for it)
+	// class of the dropped edge source-call(site) -> sink-call(site) argument: "J" justified by must-pass,
+	// "F5" validator condition not on every path, "U" unexplained
+	edgeClass map[[2]int]string
+	// sinks that have an F5-class dropped edge from a node that is not a source call (data that went
+	// through another call first, e.g. x1, _ = norm(x0))
+	indirectF5 map[int]bool
 	gt, rept  map[[2]int]bool
 	condKinds map[int]bool
 }
@@ -143,6 +150,50 @@ func sourceInstrOf(n df.GraphNode, fn *ssa.Function, arg ssa.Value) (ins ssa.Ins
 		return nil, true, true
 	}
 	return nil, false, false
+}
+
+// siteOfCall returns the constant first argument of a call to fn `name` (source(k) / sink(k, x)), or -1.
+func siteOfCall(ins ssa.Instruction, name string) int {
+	c, ok := ins.(ssa.CallInstruction)
+	if !ok || c.Common().StaticCallee() == nil || c.Common().StaticCallee().Name() != name || len(c.Common().Args) == 0 {
+		return -1
+	}
+	k, ok := c.Common().Args[0].(*ssa.Const)
+	if !ok || k.Value == nil {
+		return -1
+	}
+	return int(k.Int64())
+}
+
+func (ci *caseInfo) classify(e df.GraphNode, call ssa.CallInstruction, class string) {
+	if ci == nil {
+		return
+	}
+	switch class {
+	case "F5":
+		ci.unjust++
+	case "U":
+		ci.unexpl++
+	}
+	if cn, ok := e.(*df.CallNode); ok {
+		s, t := siteOfCall(cn.CallSite(), "source"), siteOfCall(call, "sink")
+		if s < 0 && t >= 0 && class == "F5" {
+			if ci.indirectF5 == nil {
+				ci.indirectF5 = map[int]bool{}
+			}
+			ci.indirectF5[t] = true
+		}
+		if s >= 0 && t >= 0 {
+			if ci.edgeClass == nil {
+				ci.edgeClass = map[[2]int]string{}
+			}
+			k := [2]int{s, t}
+			// the worst class wins: U > F5 > J
+			if old := ci.edgeClass[k]; old == "" || class == "U" || (class == "F5" && old == "J") {
+				ci.edgeClass[k] = class
+			}
+		}
+	}
 }
 
 // addEdgeQueries walks the real summary graph of d.fn.
@@ -204,8 +255,8 @@ func addEdgeQueries(bt *batch, rep *lib.Report, d *fdump, ts *config.TaintSpec, 
 		ae := d.vexpr(arg, &budget)
 		if !ok || isDefer || isFuncVal || budget < 0 || (sIns != nil && sIns.Parent() != fn) {
 			rep.Count("edge:not-modelled-source-kind-" + strings.TrimSpace(df.NodeKind(e.n)))
-			if realDrop && ci != nil {
-				ci.unjust++ // cannot be justified by the criterion: outside the proved domain
+			if realDrop {
+				ci.classify(e.n, call, "U") // cannot be related to the criterion
 			}
 			continue
 		}
@@ -238,20 +289,22 @@ func addEdgeQueries(bt *batch, rep *lib.Report, d *fdump, ts *config.TaintSpec, 
 			if !strings.HasPrefix(got, want+" J ") {
 				q.want = want + " J ?"
 				m.report(q, got)
-				if realDrop && ci != nil {
-					ci.unjust++
+				if realDrop {
+					// the real edge does not carry what the model of the unchanged code predicts:
+					// its drop is not an instance of the recorded finding
+					rep.Count("V3:dropped-edge-differs-from-model")
+					ci.classify(e.n, call, "U")
 				}
 				return
 			}
-			just := strings.HasSuffix(got, " J 1")
 			if realDrop {
-				if just {
+				// real conditions == model conditions: V3 = dropJustified on them
+				if strings.HasSuffix(got, " J 1") {
 					rep.Count("V3:dropped-edge-must-pass")
+					ci.classify(e.n, call, "J")
 				} else {
 					rep.Count("V3:dropped-edge-NOT-must-pass(outside_proved_domain)")
-					if ci != nil {
-						ci.unjust++
-					}
+					ci.classify(e.n, call, "F5")
 				}
 			}
 		}
@@ -435,27 +488,36 @@ func runProgram(rep *lib.Report, dir, pkg, text string, cases []*caseInfo, skelS
 		if len(ci.rept) > len(ci.gt) {
 			rep.Count("case:reports-more-than-ground-truth(precision, not demanded)")
 		}
-		dom := ci.unjust == 0
+		dom := ci.unjust == 0 && ci.unexpl == 0
 		if dom {
 			inDomain++
 		} else {
 			outDomain++
 		}
-		var missed [][2]int
+		var missed, missedF5 [][2]int
 		for k := range ci.gt {
 			if !ci.rept[k] {
-				missed = append(missed, k)
+				if cl, direct := ci.edgeClass[k]; cl == "F5" || (!direct && ci.indirectF5[k[1]]) {
+					missedF5 = append(missedF5, k)
+				} else {
+					missed = append(missed, k)
+				}
 			}
 		}
-		if len(missed) == 0 {
+		if len(missed)+len(missedF5) == 0 {
 			continue
 		}
-		sort.Slice(missed, func(i, j int) bool { return missed[i][0]*100000+missed[i][1] < missed[j][0]*100000+missed[j][1] })
-		content := fmt.Sprintf("%s\nmissed (source site, sink site): %v\nground truth: %v\nreported: %v\nvalidator-dropped edges: %d, of which not on every path: %d\nconfig: sources ^source$, sinks ^sink$, sanitizers %s, validators %s\nsupport code: nativeSupport / stubSupport in harness/cmd/c02/gen.go (the whole program is in %s)\n",
-			ci.src, missed, keys2(ci.gt), keys2(ci.rept), ci.dropped, ci.unjust, sanitizerRe, validatorRe, dir)
-		if dom {
-			rep.Fail("e2e-miss:"+ci.src, fmt.Sprintf("a native execution delivers unvalidated, unsanitized source data to a sink (source site, sink site)=%v and the taint analysis does not report it; every validator-dropped edge of the function satisfies must-pass", missed[0]), []byte(content), false)
-		} else {
+		less := func(l [][2]int) func(i, j int) bool {
+			return func(i, j int) bool { return l[i][0]*100000+l[i][1] < l[j][0]*100000+l[j][1] }
+		}
+		sort.Slice(missed, less(missed))
+		sort.Slice(missedF5, less(missedF5))
+		content := fmt.Sprintf("%s\nmissed (source site, sink site): %v\nmissed through an edge whose validator condition is not on every path (F5): %v\nground truth: %v\nreported: %v\nvalidator-dropped edges: %d (not on every path: %d, unexplained by the model: %d); classes %v\nconfig: sources ^source$, sinks ^sink$, sanitizers %s, validators %s\nsupport code: nativeSupport / stubSupport in harness/cmd/c02/gen.go (the whole program is in %s)\n",
+			ci.src, missed, missedF5, keys2(ci.gt), keys2(ci.rept), ci.dropped, ci.unjust, ci.unexpl, ci.edgeClass, sanitizerRe, validatorRe, dir)
+		if len(missed) > 0 {
+			rep.Fail("e2e-miss:"+ci.src, fmt.Sprintf("a native execution delivers unvalidated, unsanitized source data to a sink (source site, sink site)=%v and the taint analysis does not report it; the flow is not explained by a validator condition that fails must-pass", missed[0]), []byte(content), false)
+		}
+		if len(missedF5) > 0 {
 			missesOut++
 			rep.Fail(f5Key, "flow dropped because of a validator condition taken from ONE path while another path by-passes the validator", []byte(content), false)
 		}
